@@ -81,11 +81,13 @@ class Disconnection:
        self._remove_backreference(ref[i], k)
 
   def _disconnect_dependent_line(self, ref):
+    if isinstance(ref, gfapy.OrientedLine):
+      ref = ref.line
     if isinstance(ref, gfapy.Line):
-      ref.disconnect()
-    elif isinstance(ref, gfapy.OrientedLine):
-      if isinstance(ref.line, gfapy.Line):
-        ref.line.disconnect()
+      # a line listed more than once (e.g. a path which visits the segment
+      # several times) has already been disconnected
+      if ref.is_connected():
+        ref.disconnect()
     elif isinstance(ref, list):
       for i in range(len(ref)):
         self._disconnect_dependent_line(ref[i])
@@ -104,7 +106,9 @@ class Disconnection:
 
   def _disconnect_dependent_lines(self):
     for k in self.__class__.DEPENDENT_LINES:
-      for ref in self._refs.get(k, []):
+      # iterate over a copy: disconnecting a dependent line removes it
+      # from the collection
+      for ref in list(self._refs.get(k, [])):
         self._disconnect_dependent_line(ref)
 
   def _remove_nonfield_backreferences(self):
